@@ -162,6 +162,9 @@ func runStack(t *rapid.T, col *ev.Collector, prop string, specs []mwSpec, stack 
 			}
 		}
 	}
+	if why := s.Altered(); why != "" {
+		hx.Fail(t, ev.Failure{Property: prop, Signature: "reply-altered-after-delivery", Clause: "the offending message is answered by a rejection that names it: a reply the client has received keeps its wording when later messages are rejected", Case: desc, Observed: why})
+	}
 	if err := s.End(); err != nil {
 		hx.Fail(t, ev.Failure{Property: prop, Signature: "session-end", Clause: "the session ends after cancel", Case: desc, Observed: err.Error()})
 	}
